@@ -268,19 +268,20 @@ type keptFrame struct {
 }
 
 type runner struct {
-	c        SCase
-	area     string
-	s        stream
-	ini      *quic.VerifInitialCryptoStream
-	written  []byte
-	got      []span
-	kept     []keptFrame
-	popped   bool
-	deferred bool // a frame started below the highest offset already sent
-	packets  int
-	frames   int
-	bi       int
-	strict   bool // a valid ClientHello (or a mode without scrambling): every rule applies
+	c          SCase
+	area       string
+	s          stream
+	ini        *quic.VerifInitialCryptoStream
+	written    []byte
+	got        []span
+	kept       []keptFrame
+	popped     bool
+	popAllDone bool
+	deferred   bool // a frame started below the highest offset already sent
+	packets    int
+	frames     int
+	bi         int
+	strict     bool // a valid ClientHello (or a mode without scrambling): every rule applies
 }
 
 var defaultBudgets = []int{1162, 1200, 1252, 1350, 1452}
@@ -450,6 +451,37 @@ func checkSInner(c SCase, u *vf.Unit) *vf.Verdict {
 	r.strict = validCH || c.Mode != "scramble"
 	label := func(l string) { u.Class(c.Mode + ":" + l) }
 
+	// PopAllCryptoData, as planInitialFlight calls it: nothing popped yet, HasData true. With uQUIC
+	// (scrambling disabled) that can already be the case after a partial write.
+	popAll := func() *vf.Verdict {
+		if r.ini == nil || r.popped || r.popAllDone || !r.s.HasData() || !(c.Mode == "uquic-flight" || (c.Mode == "scramble" && c.PopAll)) {
+			return nil
+		}
+		r.popAllDone = true
+		all := r.ini.PopAllCryptoData()
+		switch {
+		case len(all) == 0 && c.Mode == "uquic-flight":
+			return vf.Bad("C09/splitter/popall-empty", "scrambling disabled, %d bytes queued, HasData true, but PopAllCryptoData returned nothing", len(r.written))
+		case len(all) == 0:
+			label("popall-refused") // documented: nil while scrambling is on; nothing may be lost (checked by the drain below)
+		default:
+			if !bytes.Equal(all, r.written) {
+				return vf.Bad("C09/"+r.area+"/popall-wrong-bytes", "PopAllCryptoData returned %d bytes that are not the %d bytes written", len(all), len(r.written))
+			}
+			r.got = append(r.got, span{0, len(all)})
+			r.kept = append(r.kept, keptFrame{off: 0, data: all, copy: append([]byte(nil), all...)})
+			r.popped = true
+			label("popall")
+			if len(r.written) < len(content) {
+				label("popall-partial")
+			}
+			if r.s.HasData() {
+				return vf.Bad("C09/"+r.area+"/popall-hasdata", "PopAllCryptoData returned the whole stream but HasData is still true")
+			}
+		}
+		return nil
+	}
+
 	// writes
 	cuts := append([]int(nil), c.Cuts...)
 	for i := range cuts {
@@ -479,6 +511,9 @@ func checkSInner(c SCase, u *vf.Unit) *vf.Verdict {
 			return vf.Bad("C09/"+r.area+"/short-write", "Write(%d bytes) returned %d", len(piece), n)
 		}
 		if c.PopBetw && i+1 < len(cuts) {
+			if v := popAll(); v != nil {
+				return v
+			}
 			if _, v := r.packet(r.nextBudget()); v != nil {
 				return v
 			}
@@ -493,26 +528,8 @@ func checkSInner(c SCase, u *vf.Unit) *vf.Verdict {
 		return vf.Bad("C09/"+r.area+"/hasdata-false-early", "all %d bytes are written, %v popped so far, but HasData is false: the rest is never sent", len(r.written), r.got)
 	}
 
-	// PopAllCryptoData, as planInitialFlight calls it: nothing popped yet, HasData true
-	if r.ini != nil && !r.popped && r.s.HasData() && (c.Mode == "uquic-flight" || (c.Mode == "scramble" && c.PopAll)) {
-		all := r.ini.PopAllCryptoData()
-		switch {
-		case len(all) == 0 && c.Mode == "uquic-flight":
-			return vf.Bad("C09/splitter/popall-empty", "scrambling disabled, %d bytes queued, HasData true, but PopAllCryptoData returned nothing", len(r.written))
-		case len(all) == 0:
-			label("popall-refused") // documented: nil while scrambling is on; nothing may be lost (checked by the drain below)
-		default:
-			if !bytes.Equal(all, r.written) {
-				return vf.Bad("C09/"+r.area+"/popall-wrong-bytes", "PopAllCryptoData returned %d bytes that are not the %d bytes written", len(all), len(r.written))
-			}
-			r.got = append(r.got, span{0, len(all)})
-			r.kept = append(r.kept, keptFrame{off: 0, data: all, copy: append([]byte(nil), all...)})
-			r.popped = true
-			label("popall")
-			if r.s.HasData() {
-				return vf.Bad("C09/"+r.area+"/popall-hasdata", "PopAllCryptoData returned the whole stream but HasData is still true")
-			}
-		}
+	if v := popAll(); v != nil {
+		return v
 	}
 
 	finish := func(phase string) *vf.Verdict {
